@@ -30,12 +30,13 @@ class Check(PropertyCheck):
     id = "C09"
     module = "Props.C09"
     extra_modules = ["Model.JobTrace"]
-    theorems = ["C09_waiting_has_waker_partial", "C09_refuted_without_recheck", "C09_witness_fixed"]
+    theorems = ["C09_waiting_has_waker_partial", "C09_holder_is_running", "C09_no_stuck_waiting",
+                "C09_refuted_without_recheck", "C09_witness_fixed"]
     variant = None
     assumptions = [
         "every task function terminates and the workflow is finite (premise of the property; the open model leaves the creation of jobs to the schedule)",
         "no job demands more of a resource than its limit (feas_op premise)",
-        "NOT proved: a holder is with an executor or has its completion event queued; a termination measure. Both are reached by the trace correspondence and by the quiescence oracle on the real event loop only",
+        "NOT proved: a termination measure for finite workflows (reached by the trace correspondence and by the quiescence oracle on the real event loop only)",
     ]
     rule = ("random feasible programs (twins, failures, catch, limits on 2 resources) on the real Scheduler with a "
             "controlled executor; the oracle flags queue-empty + nothing-running + workflow-pending; non-trivial = >= 3 jobs")
